@@ -444,6 +444,9 @@ def run(ctx):
     # additionally links an external file (seed C08-j skipped the embedded tiles then and the sprite no longer loads)
     import spec as _SP
     _spec = _SP.load_spec()
+    # .. and the tileset a tilemap layer names: the layer chunk's DWORD tileset index, stored as read (seed C08-k read a WORD)
+    _bl, _ = _layout.check_layout(ctx, _spec, 'asefile::layer::parse_chunk', 'LAYER', rule='Q2')
+    _layout.check_stores(ctx, _spec, 'asefile::layer::parse_chunk', 'LAYER', _bl, rule='Q2')
     _bnd, _ = _layout.check_layout(ctx, _spec, 'asefile::tileset::Tileset::parse_chunk', 'TILESET', rule='Q4')
     _layout.check_stores(ctx, _spec, 'asefile::tileset::Tileset::parse_chunk', 'TILESET', _bnd, rule='Q4')
     ctx.samples = [i for i in ctx.instances][:16]
